@@ -155,6 +155,56 @@ func runC17(c *Ctx) {
 		}
 		report("sm2/sign-verify-derive", fmt.Sprintf("concurrent sm2 G=%d M=%d", G, mm), nb == 0 && snap == fmt.Sprintf("%x%x%x%x%x", kp.priv, kp.px, kp.py, id, msg), fmt.Sprintf("%d calls differ", nb), "all equal to serial")
 	}
+	// ---- SM2 with a DIFFERENT key per goroutine (state cached per key would be exposed here) ----
+	{
+		type job struct {
+			kp  keyPair
+			ks  []*big.Int
+			sig [][2][]byte
+		}
+		mm := M
+		if mm > 40 {
+			mm = 40
+		}
+		id, msg := []byte("1234567812345678"), c.rng.Bytes(64)
+		jobs := make([]job, G)
+		for g := range jobs {
+			jobs[g].kp = randKey(c)
+			for i := 0; i < mm; i++ {
+				k := randK(c)
+				r, s, _ := sm2.Sign(id, jobs[g].kp.px, jobs[g].kp.py, &scriptReader{items: dataScript(be32(k))}, jobs[g].kp.priv, msg)
+				jobs[g].ks = append(jobs[g].ks, k)
+				jobs[g].sig = append(jobs[g].sig, [2][]byte{r, s})
+			}
+		}
+		bad := make([]int, G)
+		var wg sync.WaitGroup
+		for g := 0; g < G; g++ {
+			wg.Add(1)
+			go func(g int) {
+				defer wg.Done()
+				j := &jobs[g]
+				for i := 0; i < mm; i++ {
+					r, s, err := sm2.Sign(id, j.kp.px, j.kp.py, &scriptReader{items: dataScript(be32(j.ks[i]))}, j.kp.priv, msg)
+					if err != nil || !bytes.Equal(r, j.sig[i][0]) || !bytes.Equal(s, j.sig[i][1]) {
+						bad[g]++
+					}
+					if ok, _ := sm2.Verify(id, j.kp.px, j.kp.py, msg, j.sig[i][0], j.sig[i][1]); !ok {
+						bad[g]++
+					}
+					if x, _, err := sm2.DerivePublic(j.kp.priv); err != nil || !bytes.Equal(x, j.kp.px) {
+						bad[g]++
+					}
+				}
+			}(g)
+		}
+		wg.Wait()
+		nb := 0
+		for _, b := range bad {
+			nb += b
+		}
+		report("sm2/one-key-per-goroutine", fmt.Sprintf("concurrent sm2 with distinct keys G=%d M=%d", G, mm), nb == 0, fmt.Sprintf("%d calls differ from their serial answers", nb), "all equal to serial")
+	}
 	// ---- SM3: independent hash values ----
 	{
 		msgs := make([][]byte, G)
